@@ -2,6 +2,7 @@ use vstd::prelude::*;
 use crate::mpc::data_types::*;
 use std::ops::{BitAnd, BitXor};
 use vstd::std_specs::ops::{BitXorSpecImpl, BitAndSpecImpl};
+use vstd::std_specs::cmp::PartialEqSpecImpl;
 
 verus! {
 
@@ -98,6 +99,28 @@ impl BitAndSpecImpl<Delta> for bool {
     open(crate) spec fn bitand_req(self, rhs: Delta) -> bool { true }
     open(crate) spec fn bitand_spec(self, rhs: Delta) -> Delta { Delta(dmask(self, rhs.0)) }
 }
+// `#[derive(PartialEq)]` on plain data is structural equality (trusted: derive semantics)
+impl PartialEqSpecImpl for Mac {
+    open(crate) spec fn obeys_eq_spec() -> bool { true }
+    open(crate) spec fn eq_spec(&self, other: &Mac) -> bool { *self == *other }
+}
+impl PartialEqSpecImpl for Key {
+    open(crate) spec fn obeys_eq_spec() -> bool { true }
+    open(crate) spec fn eq_spec(&self, other: &Key) -> bool { *self == *other }
+}
+impl PartialEqSpecImpl for Label {
+    open(crate) spec fn obeys_eq_spec() -> bool { true }
+    open(crate) spec fn eq_spec(&self, other: &Label) -> bool { *self == *other }
+}
+impl PartialEqSpecImpl for Delta {
+    open(crate) spec fn obeys_eq_spec() -> bool { true }
+    open(crate) spec fn eq_spec(&self, other: &Delta) -> bool { *self == *other }
+}
+pub assume_specification[ <Mac as PartialEq>::eq ](a: &Mac, b: &Mac) -> (r: bool);
+pub assume_specification[ <Key as PartialEq>::eq ](a: &Key, b: &Key) -> (r: bool);
+pub assume_specification[ <Label as PartialEq>::eq ](a: &Label, b: &Label) -> (r: bool);
+pub assume_specification[ <Delta as PartialEq>::eq ](a: &Delta, b: &Delta) -> (r: bool);
+
 // `&Auth ^ &Auth` and `&Share ^ &Share` build a fresh Vec; a Vec has no extensional equality, so
 // their functional contract is an `ensures` on the impl (see contracts/data_types.toml), not a
 // `bitxor_spec`.
@@ -117,6 +140,9 @@ pub assume_specification[ <Mac as Clone>::clone ](m: &Mac) -> (r: Mac) ensures r
 pub assume_specification[ <Key as Clone>::clone ](m: &Key) -> (r: Key) ensures r == *m;
 pub assume_specification[ <Delta as Clone>::clone ](m: &Delta) -> (r: Delta) ensures r == *m;
 pub assume_specification[ <Label as Clone>::clone ](m: &Label) -> (r: Label) ensures r == *m;
+
+pub assume_specification[ <Share as Clone>::clone ](m: &Share) -> (r: Share) ensures r == *m;
+pub assume_specification[ <Auth as Clone>::clone ](m: &Auth) -> (r: Auth) ensures r == *m;
 
 /// Rule N12 target: `vec![x; n]`. Trusted: std's `from_elem` yields n clones and `Clone` of the
 /// plain-data element types used by the engine is the identity.
